@@ -35,7 +35,7 @@ EXPECT_REACH = ['records_searched', 'secrets_searched', 'flavour.plain', 'flavou
 
 def generate(seed, tier):
     r = random.Random(f'C20gen:{seed}')
-    flavour = r.choice(['plain', 'plain', 'authfail', 'hostile', 'kerr', 'kodd', 'debug', 'mismatch'])
+    flavour = r.choice(['plain', 'plain', 'authfail', 'hostile', 'kerr', 'kodd', 'debug', 'mismatch', 'byzpeer'])
     o = {'conf': {'profile': 'fast', 'entries': 2}, 'both_initiate': r.random() < 0.4, 'packets': r.randint(1, 4),
          'duration': r.choice([20, 40]), 'forced': 3, 'faults': [k for k in ('drop', 'dup', 'corrupt') if r.random() < 0.3]}
     sc = workload.pair_scenario(seed, PROP, o)
@@ -92,6 +92,14 @@ def generate(seed, tier):
                     pe.setdefault('encr', ['aes256'])
                 else:
                     pe.pop('encr', None)
+    elif flavour == 'byzpeer':
+        # a peer that misbehaves inside the protocol (sim/byz.py): answers naming groups, proposals, selectors or modes that were never
+        # offered, malformed authentic messages - the rarer refusal paths, each of which logs why it refuses
+        sc['byz'] = {'kind': r.choice(['invalid_ke_never_offered', 'invalid_ke_never_offered', 'foreign_child_response', 'foreign_init_response',
+                                       'foreign_ike_rekey_response', 'widen_response', 'flip_mode_response', 'narrow_rekey_response', 'auth_malformed',
+                                       'bad_reply', 'multi_proposal_request', 'ts_list_request', 'range_request', 'reuse_spi_request']),
+                     'seed': r.randrange(2 ** 31)}
+        sc['meta']['byz'] = sc['byz']['kind']
     elif flavour == 'debug':
         sc['debug_log'] = True
     sc['ops'].sort(key=lambda x: x['t'])
@@ -224,6 +232,13 @@ def run(scenario):
             peer = meta['a_addr'] if op['node'] == 'B' else meta['b_addr']
             data, src = hostile.make(op, ctx['wire'], dst, peer, meta['family'])
             w.net.inject(data, src, dst, 0.0, 'forge.' + op['kind'])
+        if scenario.get('byz'):
+            from sim import byz
+            from sim.interpose import Interposer
+            ip = ctx['ip'] = Interposer(w, ctx['tap'])
+            ctx['byz_reach'] = {}
+            rule, _ = byz.make(scenario['byz']['kind'], scenario['byz']['seed'], w, ip, ctx['tap'], ctx['byz_reach'])
+            ip.rules.append(rule)
         from checks.c17 import _handlers
         ctx['reach'] = {}
         ctx['handlers'] = {'hostile': do_hostile, 'kodd': _handlers(ctx)['kodd']}
@@ -231,6 +246,7 @@ def run(scenario):
     tap = ctx['tap']
     flavour = scenario['meta'].get('flavour')
     reach = {'flavour.' + str(flavour): 1}
+    reach.update(ctx.get('byz_reach', {}))
     secrets = gather_secrets(w, tap, scenario)
     debug = bool(scenario.get('debug_log'))
     texts = [(t, n, lvl, msg) for (t, n, lvl, msg) in w.logs if lvl >= logging.INFO]
